@@ -112,11 +112,14 @@ def index_bytes(kind, idx, rng, other_idx):
         return idx[:rng.randrange(4, max(5, len(idx)))]
 
 
+OWN_FDS = set()     # descriptors of file objects the harness itself handed to the library
+
+
 def scan(ctx, where, info, expect_open=()):
-    """No descriptor for watched files may be open now (except expect_open paths)."""
+    """No descriptor for watched files may be open now (except the harness's own file objects)."""
     ctx.count('fd_scans')
     fds = fdmon.open_fds()
-    leaked = {fd: p for fd, p in fds.items() if p not in expect_open}
+    leaked = {fd: p for fd, p in fds.items() if fd not in OWN_FDS}
     if leaked:
         kinds = sorted({'index' if p.endswith('_index') else 'data' for p in leaked.values()})
         ctx.violation('fd-leak/%s/%s' % (where, '+'.join(kinds)), dict(info, open=sorted(leaked.values())))
@@ -146,14 +149,16 @@ def run_case(case, ctx):
         fresh_vals = {(g.name, c.name): c[:] for g in tf.groups() for c in g.channels()}
     for ik in INDEX_KINDS:
         ib = index_bytes(ik, idx, rng, other)
-        for own in ('path', 'stream'):
+        for own in ('path', 'stream', 'pathlib', 'fileobj'):
             if os.path.exists(ipath):
                 os.remove(ipath)
             util.write_file(path, bad)
-            if ib is not None and own == 'path':
+            if ib is not None and own in ('path', 'pathlib'):
                 util.write_file(ipath, ib)
             elif ib is not None:
                 continue     # an index beside the file is only discovered for paths
+            if own in ('pathlib', 'fileobj') and (case['s'] + len(ik)) % 3:
+                continue     # sampled: these two ownership kinds triple the work otherwise
             for api in ('read', 'read_metadata', 'open-close', 'with', 'open-history'):
                 ctx.evaluation()
                 info = {'corrupt': case['corrupt'], 'index': ik, 'own': own, 'api': api, 'case': case}
@@ -250,6 +255,13 @@ def one_call(ctx, TdmsFile, api, own, path, bad, info, fresh_vals, rng, ik):
     if own == 'stream':
         stream = io.BytesIO(bad)
         arg = stream
+    elif own == 'pathlib':
+        import pathlib
+        arg = pathlib.Path(path)
+    elif own == 'fileobj':
+        stream = open(path, 'rb')      # the caller's own file object: must be left open by the library, closed by us below
+        arg = stream
+        OWN_FDS.add(stream.fileno())
     raised = None
     tf = None
     ctx.count('api_calls')
@@ -323,18 +335,19 @@ def one_call(ctx, TdmsFile, api, own, path, bad, info, fresh_vals, rng, ik):
         outcome = 'raised:' + type(ex).__name__
         if api in ('read', 'read_metadata') or tf is not None:
             # read/read_metadata raised, or an open()ed file was being closed/used: nothing may stay open
+            keep = (os.path.realpath(path),) if own == 'fileobj' else ()
             if api in ('read', 'read_metadata'):
-                scan(ctx, '%s-raised/%s' % (api, own), info)
+                scan(ctx, '%s-raised/%s' % (api, own), info, expect_open=keep)
             else:
                 if tf is not None:
                     tf.close()
-                scan(ctx, '%s-raised-after-open/%s' % (api, own), info)
+                scan(ctx, '%s-raised-after-open/%s' % (api, own), info, expect_open=keep)
         else:
             # TdmsFile.open itself raised: outside the statement, observation only
             ctx.count('open_raised_observed')
-            if fdmon.open_fds():
+            if set(fdmon.open_fds()) - OWN_FDS:
                 ctx.count('open_raised_left_descriptor_open(observation)')
-                for fd in fdmon.open_fds():
+                for fd in set(fdmon.open_fds()) - OWN_FDS:
                     try:
                         os.close(fd)
                     except OSError:
@@ -342,9 +355,11 @@ def one_call(ctx, TdmsFile, api, own, path, bad, info, fresh_vals, rng, ik):
             fdmon.take_warnings()
     else:
         outcome = 'returned'
-        scan(ctx, '%s-returned/%s' % (api, own), info)
+        scan(ctx, '%s-returned/%s' % (api, own), info, expect_open=(os.path.realpath(path),) if own == 'fileobj' else ())
     opens = fdmon.take_opens()
-    if own == 'path':
+    if own == 'fileobj':
+        opens = [p for p in opens if not p.endswith('f.tdms')] + []      # our own open() of the data file is not the library's
+    if own in ('path', 'pathlib'):
         ctx.count('library_open_events', len(opens))
         if any(p.endswith('_index') for p in opens):
             ctx.count('index_opened_by_library')
@@ -353,7 +368,11 @@ def one_call(ctx, TdmsFile, api, own, path, bad, info, fresh_vals, rng, ik):
     if stream is not None:
         ctx.count('caller_streams_checked')
         if stream.closed:
-            ctx.violation('caller-stream-closed/%s' % api, dict(info, outcome=outcome))
+            ctx.violation('caller-stream-closed/%s/%s' % (api, own), dict(info, outcome=outcome))
+            OWN_FDS.clear()
+        elif own == 'fileobj':
+            OWN_FDS.discard(stream.fileno())
+            stream.close()
     if raised is not None or api == 'open-history':
         ctx.distinct((info['corrupt'], outcome, api, own, ik))
     del raised
